@@ -10,6 +10,8 @@ T = {
  'C03-2': dict(breaks='C03', what='SplineTerm.compile computes data knots only once per term (hasattr guard)', needs='a second fit / compile of the same object on data with another range, no user knots', caught_by=['C03', 'C15'], strengthened='C03 gained the recompile / refit default-knots cases after missing it (C15 caught it from the start)'),
  'C04-1': dict(breaks='C04', what='derivative penalty falls back to order n-1 when n <= derivative', needs='n_splines <= derivative order (n_splines = 2 with order <= 1 at the default d = 2, or custom d)', caught_by=['C04']),
  'C04-2': dict(breaks='C04', what='tensor penalty lifting skips the Kronecker factor of 1-coefficient marginals (drops their lam)', needs='tensor term with a linear marginal in a non-first position and lam != 1', caught_by=['C04']),
+ 'C05-1': dict(breaks='C05', what='b_spline_basis no longer forces the symmetric Haar row of the appended point 1 (same site as C03-1, found independently)', needs='constrained spline of order 1 evaluated right of the knot range', caught_by=['C05', 'C03']),
+ 'C05-2': dict(breaks='C05', what='tensor marginal constraint matrix built once from the mean coefficient slice', needs='te(...) with a constrained marginal whose coefficient slices violate the constraint in different places', caught_by=['C05']),
  'C06-1': dict(breaks='C06', what='Distribution.phi passes weights to V as well (weights counted twice)', needs='unknown scale (normal / gamma / inv_gauss, scale=None) and non-unit weights', caught_by=['C06', 'C08']),
  'C06-2': dict(breaks='C06', what='BinomialDist.V drops the `levels` factor', needs='BinomialDist(levels=k), k > 1', caught_by=['C06']),
 }
